@@ -14,6 +14,8 @@ def configs(tier):
         dict(N=2, capacity=1, fn_fail=False, pre_fail=True, return_exceptions=True, return_x=True),
         dict(N=2, capacity=2, fn_fail=True, pre_fail=True, return_exceptions=True),
         dict(N=2, capacity=2, fn_fail=True, return_exceptions=True, parmapper=True),
+        # more elements than the hand-off queue holds (capacity + 1): rejections arriving at a full queue
+        dict(N=3, capacity=1, fn_fail=False, pre_fail=True, return_exceptions=True),
     ]
     if tier == 'thorough':
         cs += [
